@@ -227,6 +227,8 @@ func TestVerifC16(t *testing.T) {
 		t.Skip("VERIF_C16_IN / VERIF_C16_OUT not set")
 	}
 
+	t.Parallel() // next to TestVerifC16Server (c16_server_test.go)
+
 	f, err := os.Open(in)
 	if err != nil {
 		t.Fatal(err)
